@@ -93,6 +93,21 @@ Proof.
     rewrite IH by lia. reflexivity.
 Qed.
 
+Lemma atomize_group c g hc : negb hc && negb (hard bs g (Group c)) = false ->
+  atomize (Group c) g hc = Group (atomize c (S g) hc).
+Proof. intros Hs. cbn [atomize]. now rewrite Hs. Qed.
+Lemma atomize_atomic c g hc : negb hc && negb (hard bs g (AtomicGroup c)) = false ->
+  atomize (AtomicGroup c) g hc = AtomicGroup (atomize c g false).
+Proof. intros Hs. cbn [atomize]. now rewrite Hs. Qed.
+Lemma atomize_cond c y n g hc : negb hc && negb (hard bs g (Conditional c y n)) = false ->
+  atomize (Conditional c y n) g hc =
+  Conditional (atomize c g hc) (atomize y (g + ngroups c) hc) (atomize n (g + ngroups c + ngroups y) hc).
+Proof. intros Hs. cbn [atomize]. now rewrite Hs. Qed.
+Lemma atomize_repeat c lo hi gr g hc : negb hc && negb (hard bs g (Repeat c lo hi gr)) = false ->
+  atomize (Repeat c lo hi gr) g hc =
+  Repeat (atomize c g (if N.eqb lo 0 && N.eqb hi 1 then hc else hc || hard bs g (Repeat c lo hi gr))) lo hi gr.
+Proof. intros Hs. cbn [atomize]. rewrite Hs. destruct (N.eqb lo 0 && N.eqb hi 1); reflexivity. Qed.
+
 Lemma atomize_alt es g hc : negb hc && negb (hard bs g (Alt es)) = false ->
   atomize (Alt es) g hc = Alt (atom_list hc g es).
 Proof.
